@@ -141,12 +141,16 @@ def search(tier, rng):
     # p_tri tries all 6 vertex orders of its argument itself: the multisets of the 7x7 grid are ALL ordered triples
     for t in grid_multisets(7):
         yield J('p_tri', *t)
+    for t in grid_multisets(6):
+        yield J('p_tri_fill', *t)
     for t in (grid_triples(6) if tier == 'quick' else grid_triples(7)):
         yield J('p_tri_outline', *t)
     n = 2500 if tier == 'quick' else 40000
     for _ in range(n):
         t = rnd_tri(rng, 60)
         yield J('p_tri', *t)
+        if rng.random() < 0.3:
+            yield J('p_tri_fill', *rnd_tri(rng, 40))
         yield J('p_tri_outline', *rnd_tri(rng, 60))
     for _ in range(n // 10):
         yield J('p_tri', *edge_tri(rng))
